@@ -163,6 +163,32 @@ def check(ctx, rep):
     ok, why = _paths_write_nonzero_record(ctx, cl)
     rep.ob('terminator.always-written', '_close_record_buffer: data/ASCII files always end with a non-zero-length record', ok,
            'no terminating record %s: the reader runs on into the next file' % why, ctx.where(cl))
+    # the one case in which the last record is left out today (the known finding above) is an empty remainder;
+    # a guard that asks for more than `data` being non-empty drops the end-of-file byte that is all that is left
+    # when the content fills its records exactly
+    lastw = [c for c in own_nodes(cl) if isinstance(c, ast.Call) and norm(c.func) == 'self._write_record' and c.args and flc.knows(c, "self.filetype in (b'M', b'B', b'P')", False)]
+    rep.floor('terminator.left-out-only-when-nothing-remains', len(lastw), 1, 'writes of the terminating record')
+    NONEMPTY = {('data', True), ('len(data) > 0', True), ('len(data) >= 1', True), ('len(data) != 0', True), ('len(data) == 0', False), ('len(data) < 1', False),
+                ('not data', False), ('len(data)', True)}
+    for c in lastw:
+        about = [(f.text, bool(f.pol)) for f in flc.facts(c) if 'data' in f.text]
+        rep.ob('terminator.left-out-only-when-nothing-remains', '_close_record_buffer: %s' % short(c, 60), all(a in NONEMPTY for a in about),
+               'the last record is written only when %s: a remainder of one byte (the end-of-file mark after content that fills its records) is dropped and the reader runs on into the next file'
+               % ' and '.join('`%s` is %s' % a for a in about if a not in NONEMPTY), ctx.where(c))
+    # a bounded read asks the record buffer for exactly the bytes still missing, so the count never exceeds the
+    # request: the loop must stop when the count *reaches* it, or it fills the next record over the unread rest
+    rd = ctx.fn(CAS + ':CassetteStream.read')
+    flr = ctx.flow(rd)
+    full = []
+    for r in own_nodes(rd):
+        if isinstance(r, ast.Return) and flr.knows(r, 'nbytes > -1', True):
+            for f in flr.facts(r):
+                full.append((f.text, bool(f.pol)))
+    reach = {('len(c) >= nbytes', True), ('len(c) == nbytes', True), ('nbytes <= len(c)', True), ('nbytes == len(c)', True), ('len(c) < nbytes', False), ('nbytes > len(c)', False)}
+    cmp_ = [a for a in full if 'len(c)' in a[0]]
+    rep.floor('read.bounded-read-stops-when-full', len(cmp_), 1, 'exit tests of the bounded read')
+    rep.ob('read.bounded-read-stops-when-full', 'read(n): returns as soon as n bytes have been gathered', bool(cmp_) and all(a in reach for a in cmp_),
+           'exit test %s: never true (the buffer is asked for n - len(c) bytes), so each read refills the record buffer and drops the rest of the record' % cmp_, ctx.where(rd))
     real = [x for x in cl.body if not (isinstance(x, ast.Expr) and isinstance(x.value, ast.Constant))]
     wif = real[0] if real and isinstance(real[0], ast.If) else None
     wreal = [x for x in (wif.body if wif else []) if not (isinstance(x, ast.Expr) and isinstance(x.value, ast.Constant))]
@@ -263,6 +289,16 @@ def variants(ctx):
            in_fn('CassetteStream._close_record_buffer', lambda fn: mu.replace_stmt(fn, lambda st: isinstance(st, ast.If) and norm(st.test) == 'data',
                                                                                   'self._write_record(int2byte(max(1, len(data))) + data)')),
            expect='terminator.always-written', note='repaired overlay: the known finding must disappear'),
+        Va('last-record-needs-two-bytes', 'break', CAS,
+           in_fn('CassetteStream._close_record_buffer', lambda fn: mu.replace_stmt(fn, lambda st: isinstance(st, ast.If) and norm(st.test) == 'data',
+                                                                                  'if len(data) > 1:\n    self._write_record(int2byte(len(data)) + data)')), expect='terminator.left-out-only'),
+        Va('last-record-guard-spelled-with-len', 'neutral', CAS,
+           in_fn('CassetteStream._close_record_buffer', lambda fn: mu.replace_stmt(fn, lambda st: isinstance(st, ast.If) and norm(st.test) == 'data',
+                                                                                  'if len(data) > 0:\n    self._write_record(int2byte(len(data)) + data)'))),
+        Va('bounded-read-never-full', 'break', CAS,
+           in_fn('CassetteStream.read', lambda fn: mu.replace_expr(fn, mu.text_is('len(c) >= nbytes'), 'len(c) > nbytes')), expect='read.bounded-read-stops-when-full'),
+        Va('bounded-read-exact', 'neutral', CAS,
+           in_fn('CassetteStream.read', lambda fn: mu.replace_expr(fn, mu.text_is('len(c) >= nbytes'), 'len(c) == nbytes'))),
         Va('header-reader-shifted', 'break', CAS,
            in_fn('CassetteStream.open_read', lambda fn: mu.replace_expr(fn, mu.text_is('record[1:16]'), 'record[0:15]')), expect='header.slice'),
         Va('header-writer-swaps-seg-length', 'break', CAS,
